@@ -695,7 +695,11 @@ class VerificationStrategy(
         comb_class: CombinatorialClassType,
         children: Optional[Tuple[CombinatorialClassType, ...]] = None,
     ) -> Tuple[int, ...]:
-        return ()
+        # A verification rule may have children marking the classes it depends on.
+        # It relies on each of them for the terms of the same size.
+        if children is None:
+            children = self.decomposition_function(comb_class) or ()
+        return tuple(0 for _ in children)
 
     def pack(self, comb_class: CombinatorialClassType) -> "StrategyPack":
         """
